@@ -222,6 +222,15 @@ func c04Run(t *engine.T, shard string) {
 			`<%= mk().Kids[0].Name %>`, `<% let a = [1, 2] %><% a[0] = 3 %><%= a %>`, `<% let f = fn(x) { return x + 1 } %><%= f(1) %>`,
 			`<%= if (s) { %>y<% } else { %>n<% } %>`, `<%= s + "x" %>|<%= xs[1] %>`, `<% let h = {"k": 1} %><%= h["k"] %>`, `<%= nope %>`,
 		}
+		t.Case("context NewContextWithOuter with nil data", true, func() (string, *engine.Fail) {
+			c := plush.NewContextWithOuter(nil, plush.NewContext())
+			c.Set("s", "S")
+			out, err := plush.Render(`a<%= s %>b`, c)
+			if f := Totality(out, err); f != nil {
+				return "", f
+			}
+			return "ok", nil
+		})
 		t.Case("context BuffaloRenderer with nil data", true, func() (string, *engine.Fail) {
 			out, err := plush.BuffaloRenderer(`a<%= h() %>b`, nil, map[string]interface{}{"h": func() string { return "H" }})
 			if f := Totality(out, err); f != nil {
